@@ -549,7 +549,9 @@ class Polygon(Shape2D):
             (np.sum(points[:-1] * points[:-1], axis=1) / 2, [0])
         )
         x, resids, _, _ = np.linalg.lstsq(points, half_point_lengths, None)
-        if len(self.vertices) > 3 and not np.isclose(resids, 0):
+        if len(self.vertices) > 3 and not np.isclose(
+            resids / np.ptp(self.vertices, axis=0).max() ** 4, 0
+        ):
             raise RuntimeError("No circumcircle for this polygon.")
 
         return Circle(np.linalg.norm(x), x + self.vertices[0])
@@ -615,7 +617,9 @@ class Polygon(Shape2D):
         )
 
         x, resids, _, _ = np.linalg.lstsq(a, b, None)
-        if len(self.vertices) > 3 and not np.isclose(resids, 0):
+        if len(self.vertices) > 3 and not np.isclose(
+            resids / np.ptp(self.vertices, axis=0).max() ** 2, 0
+        ):
             raise RuntimeError("No incircle for this polygon.")
 
         return Circle(x[3], x[:3])
